@@ -751,6 +751,17 @@ impl<'a> Runner<'a> {
                 let p = res(*parent, 0);
                 vec![(Req::GetChild { parent: p }, None), (Req::AddVersion { parent: p, data: pay.bytes() }, Some(*pay))]
             }
+            OpKind::ResendStale { k, j } => {
+                let ch = &self.clients[op.client].chain;
+                if ch.is_empty() {
+                    let pay = PaySpec::new(9, 9, self.hist.seed ^ i as u64);
+                    vec![(Req::AddVersion { parent: Uuid::nil(), data: pay.bytes() }, Some(pay))]
+                } else {
+                    let a = &ch[k % ch.len()];
+                    let b = &ch[j % ch.len()];
+                    vec![(Req::AddVersion { parent: b.parent, data: a.pay.bytes() }, Some(a.pay))]
+                }
+            }
             OpKind::Resend { k } => {
                 let ch = &self.clients[op.client].chain;
                 if ch.is_empty() {
